@@ -21,6 +21,8 @@ CLAIMED = {
             "for every enumerated architecture: all weights, inputs, contexts and all random-mask draws", "4-C06"),
     "C08": ("proof", "contract-based deductive verification: wrappers executed with tagged uninterpreted stage maps; result terms compared with a reference composition / routing spec, log-dets as sums, inverse via the stage axioms",
             "all values and all stage functions for every enumerated nesting / shape / split dimension", "4-C08"),
+    "C10": ("proof", "contract-based deductive verification: class invariant of the weight cache proved preserved by every public method and every environment transition (real train/eval/use_cache/load_state_dict/_apply code) from every abstract pre-state; outputs proved equal to the uncached ones (z3)",
+            "histories of any length by induction; all parameter and input values; D = 2", "4-C10"),
 }
 REASON_TODO = "check not built yet in this session (the design in DESIGN.md section 4 applies; will be claimed when its contracts discharge)"
 props = [json.loads(l) for l in open(os.path.join(V, "properties.jsonl"))]
